@@ -130,6 +130,10 @@ func cmdVerify(args []string) {
 		if res.Unsupported != "" {
 			fmt.Printf("UNSUPPORTED %s: %s\n", k, res.Unsupported)
 			bad++
+			if strings.HasPrefix(res.Unsupported, "too many paths") {
+				// thousands of paths with their queries: nothing of it is written or solved (it once filled the disk)
+				res.Obls = nil
+			}
 		}
 		solveAll(res.Obls, filepath.Join(*keep, safeName(k)), *secs, 16)
 		ok, fail := 0, 0
